@@ -447,8 +447,8 @@ namespace
           {
             fail_job = true;
             ProbeJob<Mesh_, true, true> job(mesh);
-            bool in_ctor = sim::cfg_int("throw_in_ctor", 0, 3) == 0;
-            long tc = in_ctor ? -1 : long(selected[size_t(sim::cfg_int("throw_sel", 0, 1 << 20)) % size_t(nsel)]);
+            bool in_ctor = sim::cfg_int(("throw_in_ctor" + std::to_string(j)).c_str(), 0, 3) == 0;
+            long tc = in_ctor ? -1 : long(selected[size_t(sim::cfg_int(("throw_sel" + std::to_string(j)).c_str(), 0, 1 << 20)) % size_t(nsel)]);
             Wrap<ProbeJob<Mesh_, true, true>> w(job, tc, in_ctor);
             da.assemble(w);
             sim::probe("failing_job_terminated");
